@@ -12,7 +12,7 @@ from ural.patterns import DOMAIN_TEMPLATE
 
 INSTAGRAM_POST_SHORTCODE_RE = re.compile(r"^[a-zA-Z0-9_\-]+$")
 INSTAGRAM_USERNAME_RE = re.compile(r"^[a-zA-Z0-9_\-\.]+$")
-INSTAGRAM_DOMAIN_RE = re.compile(r"instagram.com$", re.I)
+INSTAGRAM_DOMAIN_RE = re.compile(r"(?:^|\.)instagram\.com$", re.I)
 INSTAGRAM_URL_RE = re.compile(DOMAIN_TEMPLATE % r"(?:[^.]+\.)*instagram.com", re.I)
 INSTAGRAM_NOT_A_USER_SET = {
     "accounts",
@@ -57,10 +57,16 @@ def is_instagram_url(url):
         bool: Whether given url is from Instagram.
 
     """
-    if isinstance(url, SplitResult):
-        return bool(re.search(INSTAGRAM_DOMAIN_RE, url.hostname))
+    # NOTE: only the hostname decides, whatever the form the url is given in
+    try:
+        hostname = safe_urlsplit(url).hostname
+    except ValueError:
+        return False
 
-    return bool(re.match(INSTAGRAM_URL_RE, url))
+    if not hostname:
+        return False
+
+    return bool(re.search(INSTAGRAM_DOMAIN_RE, hostname))
 
 
 def parse_instagram_url(url):
